@@ -334,6 +334,90 @@ pub fn fault(r: &[u8], k: u64) -> Vec<u8> {
     v
 }
 
+/// Every byte value at every position of a few short requests (which bytes are accepted where is
+/// decided by the statement's grammar, not by a character class or a sampled alphabet).
+pub fn all_bytes_stage(rep: &mut Report, env: &AppEnv, stage: &str, bases: &[Vec<u8>], tcp: bool, udp: bool) {
+    let mut plan: Vec<(usize, usize)> = Vec::new();
+    for (b, base) in bases.iter().enumerate() {
+        for p in 0..base.len() {
+            plan.push((b, p));
+        }
+    }
+    let mut paths: Vec<Path> = Vec::new();
+    if udp {
+        paths.push(Path { tcp: false, v6: false, ports: 0 });
+    }
+    if tcp {
+        paths.push(Path { tcp: true, v6: true, ports: 1 });
+    }
+    let np = paths.len() as u64;
+    sweep_app(rep, env, stage, &format!("{} requests x every position x all 256 byte values x {} path(s)", bases.len(), np), plan.len() as u64 * 256 * np, |i| {
+        let d = unrank(i, &[plan.len() as u64, 256, np]);
+        let (b, p) = plan[d[0] as usize];
+        let mut r = bases[b].clone();
+        r[p] = d[1] as u8;
+        (paths[d[2] as usize], r)
+    });
+}
+
+/// The envelope of a request does not shape the answer: one complete request over {TCP, UDP} x
+/// {v4, v6} with every single departure of one L3 / L4 header field (all 256 values of 1-byte
+/// fields, edge values of wider ones), once as is and once with the checksums recomputed the
+/// way a sender would; every frame judged by the reference model (which knows which departures
+/// make the frame unanswerable).
+pub fn envelope_stage(rep: &mut Report, env: &AppEnv, stage: &str, req: &[u8], tcp: bool, udp: bool) {
+    let t0 = std::time::Instant::now();
+    let mut bases: Vec<Vec<u8>> = Vec::new();
+    for v6 in [false, true] {
+        let (a, b) = PORT_PAIRS[v6 as usize];
+        let f = flow(v6, a, b);
+        if tcp {
+            let c = env.cookies[&key_of(&f)].wrapping_add(1);
+            bases.push(f.tcp(1000, c, F_PSH | F_ACK, req));
+        }
+        if udp {
+            bases.push(f.udp(req));
+        }
+    }
+    let mut plan: Vec<(usize, crate::deviate::Field, u32)> = Vec::new();
+    for (bi, b) in bases.iter().enumerate() {
+        for fd in crate::deviate::header_fields(b) {
+            let mut vals = crate::deviate::field_values(&fd);
+            if fd.name == "tcp.window" || fd.name == "tcp.urgent" {
+                vals.extend(0..64u32);
+                vals.sort();
+                vals.dedup();
+            }
+            for v in vals {
+                plan.push((bi, fd.clone(), v));
+            }
+        }
+    }
+    let total = plan.len() as u64 * 2;
+    let opts = RunOpts::new(stage).stateful().chunk(128).no_monitor();
+    engine::run(
+        &env.cfg,
+        total,
+        &opts,
+        |i| {
+            let (bi, fd, v) = &plan[(i / 2) as usize];
+            let mut fr = bases[*bi].clone();
+            crate::deviate::set_field(&mut fr, fd, *v);
+            if i % 2 == 1 && !fd.name.ends_with("checksum") {
+                refresh_checksums(&mut fr);
+            }
+            vec![Cmd::Frame(fr)]
+        },
+        |it: &Item, sk: &mut Sink| {
+            let model = Model::new();
+            engine::judge_item(&env.cfg, &model, &env.cookies, it, it.cmds.len(), stage, sk);
+            sk.count("frames", 1);
+        },
+        &mut rep.sink,
+    );
+    rep.stage(stage, "one complete request over {TCP, UDP as applicable} x {v4,v6} x every single departure of one IP / TCP / UDP header field (all values of 1-byte fields, 22 / 16 edge values of wider ones, windows and urgent pointers 0..63) x {as is, checksums recomputed}", total, t0);
+}
+
 /// The peer's advertised window (and urgent pointer) do not shape the answer: one complete
 /// request on a fresh validated flow with every window 0..nwin-1, 8 larger ones x urgent pointers.
 pub fn window_stage(rep: &mut Report, env: &AppEnv, stage: &str, req: &[u8], nwin: u64) {
@@ -456,6 +540,7 @@ pub fn run_c13(rep: &mut Report, thorough: bool) {
         long_conv_stage(rep, &env, &format!("http-long-connection-{}", tag), None, &core[..24.min(core.len())], if thorough { 1500 } else { 300 });
         // the peer's advertised window (and urgent pointer) do not shape the answer
         window_stage(rep, &env, &format!("http-window-{}", tag), b"GET /w HTTP/1.1\r\nHost: x\r\n\r\n", 1024);
+        envelope_stage(rep, &env, &format!("http-envelope-{}", tag), b"GET /e HTTP/1.1\r\nHost: x\r\n\r\n", true, true);
         // keep-alive: a second and third complete request on a connection whose earlier requests
         // were answered
         {
@@ -600,6 +685,8 @@ pub fn run_c14(rep: &mut Report, thorough: bool) {
             (p4, appdns::build_query(0x0e0f, 0x0100, &qs))
         });
         crate::props::pairs::pair_histories(rep, &env.cfg, &format!("dns-pair-histories-{}", tag), &crate::props::pairs::datagram_variants("dns", &[appdns::build_query(5, 0x0100, &q1), appdns::build_query(6, 0, &[(dns_labels("a.b"), 1, 1), (dns_labels("c"), 1, 1)]), appdns::build_query(7, 0x0100, &[(dns_labels("version.bind"), 16, 3)])]));
+        envelope_stage(rep, &env, &format!("dns-envelope-{}", tag), &appdns::build_query(5, 0x0100, &q1), false, true);
+        all_bytes_stage(rep, &env, &format!("dns-all-byte-values-{}", tag), &[appdns::build_query(5, 0x0100, &[(dns_labels("ab.c"), 1, 1)]), appdns::build_query(0x1234, 0, &[(dns_labels("x"), 1, 1), (dns_labels("y"), 1, 1)])], false, true);
         // destination addresses
         let t0 = std::time::Instant::now();
         let dsts: Vec<Ip> = vec![srv4(), srv4b(), Ip::V4([0, 0, 0, 0]), Ip::V4([255, 255, 255, 255]), Ip::V4([224, 0, 0, 251]), Ip::V4([1, 2, 3, 4])];
@@ -976,6 +1063,9 @@ pub fn run_c15(rep: &mut Report, thorough: bool) {
             let msgs = vec![stun_magic(&[], &ID12), stun_magic(&stun_attr(3, &[0, 0, 0, 2]), &ID12), stun_classic(&[], &ID16), stun_magic(&stun_attr(0x8022, b"abcd"), &ID12)];
             long_conv_stage(rep, &env, &format!("stun-long-connection-{}", tag), Some(big.clone()), &msgs, if thorough { 1500 } else { 300 });
             window_stage(rep, &env, &format!("stun-window-{}", tag), &big, 256);
+            envelope_stage(rep, &env, &format!("stun-envelope-{}", tag), &stun_magic(&[], &ID12), true, true);
+            all_bytes_stage(rep, &env, &format!("stun-all-byte-values-{}", tag), &[stun_magic(&[], &ID12), stun_classic(&stun_attr(3, &[0, 0, 0, 2]), &ID16), stun_magic(&stun_attr(0x8022, b"abcd"), &ID12)], true, true);
+            envelope_stage(rep, &env, &format!("stun-envelope-change-{}", tag), &stun_classic(&stun_attr(3, &[0, 0, 0, 2]), &ID16), false, true);
         }
         if thorough {
             let bases: Vec<Vec<u8>> = vec![stun_magic(&[], &ID12), stun_classic(&stun_attr(3, &[0, 0, 0, 2]), &ID16), stun_magic(&[stun_attr(0x8022, b"abcd"), stun_attr(3, &[0, 0, 0, 2])].concat(), &ID12)];
@@ -1134,6 +1224,10 @@ pub fn run_c16(rep: &mut Report, thorough: bool) {
         }
         window_stage(rep, &env, &format!("rpc-window-getport-{}", tag), &apprpc::with_record_mark(&apprpc::build_call(0x61626364, 2, 100000, 2, 3, &[], &[])), 256);
         window_stage(rep, &env, &format!("rpc-window-dump-{}", tag), &apprpc::with_record_mark(&apprpc::build_call(0x61626364, 2, 100000, 4, 4, &[], &[])), 256);
+        all_bytes_stage(rep, &env, &format!("rpc-all-byte-values-udp-{}", tag), &[apprpc::build_call(0x61626364, 2, 100000, 2, 3, &[], &[]), apprpc::build_call(0x61626364, 2, 100000, 4, 4, &[1, 2, 3, 4], &[5, 6, 7, 8])], false, true);
+        all_bytes_stage(rep, &env, &format!("rpc-all-byte-values-tcp-{}", tag), &[apprpc::with_record_mark(&apprpc::build_call(0x61626364, 2, 100000, 3, 3, &[], &[]))], true, false);
+        envelope_stage(rep, &env, &format!("rpc-envelope-tcp-{}", tag), &apprpc::with_record_mark(&apprpc::build_call(0x61626364, 2, 100000, 3, 3, &[], &[])), true, false);
+        envelope_stage(rep, &env, &format!("rpc-envelope-udp-{}", tag), &apprpc::build_call(0x61626364, 2, 100000, 2, 3, &[], &[]), false, true);
         // destination ports and addresses (UDP, monitor)
         let t0 = std::time::Instant::now();
         let calls = [(2u32, 3u32), (3, 3), (4, 3), (2, 4), (3, 4), (4, 4)];
@@ -1385,6 +1479,9 @@ pub fn run_c17(rep: &mut Report, thorough: bool) {
             long_conv_stage(rep, &env, &format!("smb2-long-connection-{}", tag), None, &[pls[1].clone(), pls[2].clone(), appsmb::smb2_negotiate(&Smb2Hdr::new(0), &[0x0311, 0x0311, 0x0202], &[6; 16])], if thorough { 1500 } else { 300 });
             window_stage(rep, &env, &format!("smb1-window-{}", tag), &pls[0], 512);
             window_stage(rep, &env, &format!("smb2-window-{}", tag), &pls[1], 512);
+            envelope_stage(rep, &env, &format!("smb1-envelope-{}", tag), &pls[0], true, true);
+            all_bytes_stage(rep, &env, &format!("smb-all-byte-values-{}", tag), &pls, true, false);
+            envelope_stage(rep, &env, &format!("smb2-envelope-{}", tag), &pls[1], true, true);
         }
         let dims = [2u64, 2, 65536];
         sweep_app(rep, &env, &format!("smb2-cmd-flags-{}", tag), "command 0..65535 x response flag x {UDP, TCP}", product(&dims), |i| {
@@ -1661,6 +1758,9 @@ pub fn run_c18(rep: &mut Report, thorough: bool) {
             long_conv_stage(rep, &env, &format!("ghost-long-connection-{}", tag), None, &[ghost_request()], if thorough { 300 } else { 60 });
             window_stage(rep, &env, &format!("ssh-window-{}", tag), b"SSH-2.0-w\r\n", 256);
             window_stage(rep, &env, &format!("ghost-window-{}", tag), &ghost_request(), 256);
+            envelope_stage(rep, &env, &format!("ssh-envelope-{}", tag), b"SSH-2.0-e\r\n", true, true);
+            all_bytes_stage(rep, &env, &format!("ssh-ghost-all-byte-values-{}", tag), &[b"SSH-2.0-ab c\r\n".to_vec(), b"SSH-1.99-x\n".to_vec(), ghost_request()], true, true);
+            envelope_stage(rep, &env, &format!("ghost-envelope-{}", tag), &ghost_request(), true, true);
         }
         let gt = 1 + 9 + 81 + 729;
         sweep_app(rep, &env, &format!("ghost-tails-{}", tag), "Gh0st magic + every tail of length <= 3 over 9 symbols, the captured request, tails of 1/2/4 KB, x {UDP v4, TCP v6, UDP v6, TCP v4}", (gt + 4) * 4, |i| {
